@@ -24,9 +24,10 @@ words   = the `cell_methods` attribute after the reader's two substitutions and 
 Blanks inside names are written `·`; no name contains any of ,;+~:=[]|&^#.  The words of a
 `cell_methods` attribute and the values of cell method qualifiers are percent-encoded (`%28` = `(`).
 
-`C01.read` answers with the fields predicted for the reader with the proposed patches; when the
-reader as it is (units of a cell method interval: fixes/C01-cell-method-interval-units.patch) is
-predicted to give something else, ` %%OLD%% ` and that prediction follow.
+`C01.read` answers with the fields predicted for the reader with the proposed patches; when a
+reader without one of them (units of a cell method interval: fixes/C01-cell-method-interval-units.patch;
+a grid mapping variable that only gives a vertical datum: fixes/C01-vertical-datum-grid-mapping-referenced.patch)
+is predicted to give something else, ` %%OLD%% ` and that prediction follow.
 -/
 namespace Cfdm.Driver.C01
 open Cfdm.Driver Cfdm.Codec
@@ -359,9 +360,9 @@ def run (sub : String) (kv : KV) : String :=
   | "read" =>
     match parseFile Cfdm.CellMethods.stopNew kv, parseFile Cfdm.CellMethods.stopOld kv with
     | some nc, some ncOld =>
-      let a := showFields (readFile nc)
-      let b := showFields (readFile ncOld)
-      if a == b then a else a ++ " %%OLD%% " ++ b
+      -- the reader with the proposed patches, then the readers without one or the other
+      let preds := [showFields (readFile nc), showFields (readFileOld nc), showFields (readFile ncOld), showFields (readFileOld ncOld)]
+      String.intercalate " %%OLD%% " preds.eraseDups
     | _, _ => "bad-op"
   | _ => "bad-op"
 
